@@ -23,6 +23,8 @@ func init() {
 			"(R16.2) the directory cookie reaches the dirent cache as the guest's 64-bit value (no narrowing); (R16.3) descriptor allocation scans the occupancy words from word 0 (lowest-free) and grows by one word only when all are full; " +
 			"(R16.4) fd_readdir's reported bufused depends on the truncation indicator (an entry that does not fit is reported as truncated, not as end of directory); (R16.5) the dirent cache returns cached entries only after the refill test (a short result means end of directory); (R16.6) the dirent cache never reduces the requested count, because fd_readdir asks for one entry more than fits and reads a short answer as end-of-directory.",
 		Rules: []core.Rule{
+			{ID: "R16.12", Template: "T-BOUND", Text: "the dirent cache refuses only positions strictly before its window", Min: 1},
+			{ID: "R16.13", Template: "T-BOUND", Text: "the descriptor table computes the key it hands out from the absolute word index", Min: 1},
 			{ID: "R16.11", Template: "T-MUSTPASS", Text: "a positional read emulated with Seek restores the offset on every path that reads", Min: 1},
 			{ID: "R16.10", Template: "T-MUSTPASS", Text: "fd_readdir at cookie 0 rewinds and drops the cached window on every path", Min: 1},
 			{ID: "R16.9", Template: "T-TYPESTATE", Text: "fd_renumber: no failing return after the source entry left the table (same analysis as C15 R15.7)", Min: 1},
@@ -37,6 +39,8 @@ func init() {
 		},
 		Run: runC16,
 		Controls: []core.Control{
+			{Name: "dirent-window-start-refused", File: "internal/sys/fs.go", Old: "\tif pos < cacheStart {", New: "\tif pos <= cacheStart {", Rule: "R16.12", Substr: "strictly before"},
+			{Name: "insert-key-from-relative-index", File: "internal/descriptor/table.go", Old: "\t\t\tindex += offset\n\t\t\tkey = Key(index)*64 + Key(shift)\n", New: "\t\t\tkey = Key(index)*64 + Key(shift)\n\t\t\tindex += offset\n", Rule: "R16.13", Substr: "absolute"},
 			{Name: "pread-restore-only-after-seek", File: "internal/sysfs/file.go", Old: "\t\tdefer func() { _, _ = rs.Seek(currentOffset, io.SeekStart) }()\n", New: "", Old2: "\t\t\tif _, err = rs.Seek(off, io.SeekStart); err != nil {\n\t\t\t\treturn 0, fileError(f, f.closed, experimentalsys.UnwrapOSError(err))\n\t\t\t}\n", New2: "\t\t\tif _, err = rs.Seek(off, io.SeekStart); err != nil {\n\t\t\t\treturn 0, fileError(f, f.closed, experimentalsys.UnwrapOSError(err))\n\t\t\t}\n\t\t\tdefer func() { _, _ = rs.Seek(currentOffset, io.SeekStart) }()\n", Rule: "R16.11", Substr: "positional read"},
 			{Name: "rewind-skipped-for-full-window", File: "internal/sys/fs.go", Old: "\t\tif _, errno = d.f.Seek(0, io.SeekStart); errno != 0 {\n\t\t\treturn\n\t\t}\n\t\td.dirents = nil // dump cache\n", New: "\t\tif d.countRead == uint64(len(d.dirents)) {\n\t\t\tbreak\n\t\t}\n\t\tif _, errno = d.f.Seek(0, io.SeekStart); errno != 0 {\n\t\t\treturn\n\t\t}\n\t\td.dirents = nil // dump cache\n", Rule: "R16.10", Substr: "position 0"},
 			{Name: "renumber-fails-after-delete", File: "internal/sys/fs.go", Old: "\tc.openedFiles.Delete(from)\n", New: "\tc.openedFiles.Delete(from)\n\tif to > 1<<20 {\n\t\treturn sys.EBADF\n\t}\n", Rule: "R16.9", Substr: ""},
@@ -94,6 +98,8 @@ func runC16(c *core.Ctx) {
 	checkRewindUnconditional(c)
 	checkTableKeysAs(c, "", "R16.9")
 	checkPositionalReadRestoresOffset(c)
+	checkDirentWindowBoundary(c)
+	checkInsertKeyAbsolute(c)
 	checkCloseReachesHostObject(c)
 	c.SSA()
 	checkCountNotClamped(c)
